@@ -117,7 +117,9 @@ verus_unit("contextv", "contextv", ["C17"], [
     "AirContext::num_constraint_composition_columns (every trace length, every list of main / auxiliary constraint degrees with any cycles, every exemption count 1..=n: with d = highest evaluation degree - (n - exemptions) the degree of the quotient by the transition divisor, the result is the LEAST c >= 1 with c * n >= d + 1 - the committed columns hold every coefficient of the composition polynomial and none is surplus; no overflow / underflow)",
     "TransitionConstraintDegree::get_evaluation_degree (base * (n - 1) + the sum over the cycles of (n / cycle) * (cycle - 1), every degree and trace length; no overflow)",
     "AirContext::set_num_transition_exemptions (whenever it returns: the count is in 1..=n/2+1, the quotient of every constraint by the transition divisor has degree <= ce_domain_size - 1, the count is stored and nothing else changes; every degree list, trace length and constraint-evaluation blowup; a documented panic is modelled as not returning)",
-    "theorem_columns_fit (specification level: for a context that set_num_transition_exemptions returned, the prescribed number of columns is at most the constraint-evaluation blowup - columns * n <= ce_domain_size)"])
+    "theorem_columns_fit (specification level: for a context that set_num_transition_exemptions returned, the prescribed number of columns is at most the constraint-evaluation blowup - columns * n <= ce_domain_size)",
+    "TransitionConstraintDegree::min_blowup_factor (at least base + cycles - 1 and at least 2; next_power_of_two is an assumed std contract) with l_eval_deg_fits (specification level: the evaluation degree is at most (base + cycles) * (n - 1), so the quotient by the default divisor fits a constraint evaluation domain of n * blowup points for every blowup >= base + cycles - 1)",
+    "AirContext::new_multi_segment (whenever the constructor returns: ce_blowup_factor >= every main and auxiliary constraint's degree bound and >= 2, the LDE blowup >= ce_blowup_factor, at least one main degree and assertion, auxiliary degrees / assertions exactly for multi-segment traces, a Lagrange column only as the last auxiliary column, exemption count 1, all arguments stored unchanged; documented panics modelled as not returning)"])
 
 
 verus_unit("oodv", "oodv", ["C03", "C06", "C12", "C04"], [
